@@ -278,6 +278,11 @@ def run_case(case):
     layers = []
     tbl = {}
     tokens = {}
+    # three worlds in ten are shuffled with a fixed seed and have tests
+    # whose outcome depends on the order inside the layer (a test that fails
+    # when a certain other test of its class ran before it): "the same
+    # outcomes" then needs the same order in the subprocesses
+    shuffled = rng.random() < 0.3
     for i in range(k):
         name = 'L%d' % i
         hooks = {'setUp': 'ok', 'tearDown': 'ok'}
@@ -303,7 +308,7 @@ def run_case(case):
         layers.append({'name': name, 'kind': 'class', 'bases': [],
                        'hooks': hooks})
         tests = []
-        for j in range(rng.randint(2, 3)):
+        for j in range(rng.randint(3, 5) if shuffled else rng.randint(2, 3)):
             tok = 'TOK-%s-%d-%d' % (name, j, rng.randrange(10 ** 6))
             tokens.setdefault(name, []).append(tok)
             kind = 'pass'
@@ -324,6 +329,9 @@ def run_case(case):
                         t['subs'][0] = 'F'
                     if t['subs'].count('F') + t['subs'].count('E') > 1:
                         multi_event[0] += 1
+            if shuffled and j > 0 and rng.random() < 0.6:
+                kind = 'pass'
+                t['fails_after'] = 'test_%d' % rng.randrange(j)
             t.update({'kind': kind,
                       'actions': [{'ph': 'body', 'do': 'write',
                                    'stream': 'stdout',
@@ -367,7 +375,10 @@ def run_case(case):
             name = 'L%d' % i
             first = tids[name][0]
             if i in first_wave:
-                holds.append({'point': 'test.body:' + first,
+                # (shuffled worlds: points that do not depend on the order
+                # of the tests inside the layer)
+                holds.append({'point': 'layer.setUp:' + name if shuffled
+                              else 'test.body:' + first,
                               'child_only': True, 'set': ['arrived.%d' % i],
                               'wait_for': ['arrived.%d' % j
                                            for j in first_wave],
@@ -375,7 +386,8 @@ def run_case(case):
             pos = perm.index(i)
             if pos > 0:
                 before = perm[pos - 1]
-                pt = {'body': 'test.body:' + tids[name][-1],
+                pt = {'body': 'layer.tearDown:' + name if shuffled
+                      else 'test.body:' + tids[name][-1],
                       'tearDown': 'layer.tearDown:' + name,
                       'report': 'report',
                       # after the child closed its stdout, before the
@@ -394,6 +406,9 @@ def run_case(case):
     root = vworld.materialise(spec)
     try:
         seqopts = {'verbose': 1}
+        if shuffled:
+            seqopts['shuffle_seed'] = case['wseed'] % 1000
+            C('shuffled_worlds_with_order_dependent_tests')
         ws = common.run_world(spec, None, seqopts, root=root)
         if ws.raised is not None:
             V('sequential-run-aborted', 'run-raised',
@@ -402,6 +417,8 @@ def run_case(case):
         seq_order = [l['name'] for l in ws.info['layers']]
         seq_ran = common.ran_counts(ws.events, 'test.setUp')
         opts = {'verbose': case['verbose'], 'processes': N}
+        if shuffled:
+            opts['shuffle_seed'] = seqopts['shuffle_seed']
         yi = ztr_monitor.enable_yield_injection(case['yseed'])
         y0 = ztr_monitor.COUNTERS.get('yield.lines', 0)
         try:
